@@ -277,7 +277,10 @@ def huff_stream(line, part):
     n = 64 - fb
     pend = buf & ((1 << n) - 1) if n > 0 else 0
     # the bits that were already pending before the call come out first: they are part of both streams alike
-    return "".join("%02x" % b for b in out) + ":%d:%x" % (n, pend)
+    v = 0
+    for b in out:
+        v = (v << 8) | b
+    return (8 * len(out) + n, (v << n) | pend)       # the stream as (bit length, value): flush timing does not matter
 
 
 def quant_mask(line, part):
